@@ -391,6 +391,134 @@ theorem ems_distance_of_force (d Lp Lc St kT : ℝ) (hd : 0 < d) (hLp : 0 < Lp) 
 example : ∃ d Lp Lc St kT : ℝ, 0 < d ∧ 0 < Lp ∧ 0 < Lc ∧ 0 < St ∧ 0 < kT :=
   ⟨17, 40, 16, 1500, 4.11, by norm_num, by norm_num, by norm_num, by norm_num, by norm_num⟩
 
+/-! ## the closed-form pairs characterised without reference to the branch; monotonicity -/
+
+/-- Odijk's extension is strictly increasing in the force -/
+theorem odijk_distance_strictMono (F1 F2 Lp Lc St kT : ℝ) (h1 : 0 < F1) (h12 : F1 < F2) (hLp : 0 < Lp)
+    (hLc : 0 < Lc) (hSt : 0 < St) (hkT : 0 < kT) :
+    odijkDistance F1 Lp Lc St kT < odijkDistance F2 Lp Lc St kT := by
+  rw [odijkDistance_real, odijkDistance_real]
+  have h2 : 0 < F2 := lt_trans h1 h12
+  have hlt : kT / (F2 * Lp) < kT / (F1 * Lp) := by
+    apply div_lt_div_of_pos_left hkT (by positivity)
+    exact mul_lt_mul_of_pos_right h12 hLp
+  have hs : √(kT / (F2 * Lp)) < √(kT / (F1 * Lp)) := Real.sqrt_lt_sqrt (by positivity) hlt
+  have hd : F1 / St < F2 / St := div_lt_div_of_pos_right h12 hSt
+  apply mul_lt_mul_of_pos_left _ hLc
+  linarith
+
+/-- Odijk: for positive forces, `F` is the force of `d` iff `d` is the extension of `F` — whatever side of
+    `det = 0` the cubic of `d` lies on. -/
+theorem odijk_pair_characterised (F d Lp Lc St kT : ℝ) (hF : 0 < F) (hLp : 0 < Lp) (hLc : 0 < Lc)
+    (hSt : 0 < St) (hkT : 0 < kT) :
+    d = odijkDistance F Lp Lc St kT ↔ F = odijkForce d Lp Lc St kT := by
+  constructor
+  · intro h; rw [h]; exact (odijk_force_of_distance F Lp Lc St kT hF hLp hLc hSt hkT).symm
+  · intro h; rw [h]; exact (odijk_distance_of_force d Lp Lc St kT hLp hLc hSt hkT).symm
+
+/-- Marko–Siggia: below the contour length, `F > 0` is the force at `d` iff `d` is what
+    `wlc_marko_siggia_distance` returns for `F`. -/
+theorem ms_pair_characterised (F d Lp Lc kT : ℝ) (hF : 0 < F) (hd : d < Lc) (hLp : 0 < Lp) (hLc : 0 < Lc)
+    (hkT : 0 < kT) :
+    F = msForce d Lp Lc kT ↔ d = msDistance F Lp Lc kT := by
+  have hsel := ms_selected_root F Lp Lc kT hF hLp hLc hkT
+  have hback := ms_force_of_distance F Lp Lc kT hF hLp hLc hkT
+  constructor
+  · intro h
+    rcases lt_trichotomy d (msDistance F Lp Lc kT) with h' | h' | h'
+    · have := msForce_strictMono d _ Lp Lc kT hLp hLc hkT h' hsel.2; linarith
+    · exact h'
+    · have := msForce_strictMono _ d Lp Lc kT hLp hLc hkT h' hd; linarith
+  · intro h; rw [h]; exact hback.symm
+
+/-- extensible Marko–Siggia: on the domain of the published relation, `(F, d)` satisfies it iff `d` is what
+    `ewlc_marko_siggia_distance` returns for `F` (`F > 0`) … -/
+theorem ems_distance_characterised (F d Lp Lc St kT : ℝ) (hF : 0 < F) (hLp : 0 < Lp) (hLc : 0 < Lc)
+    (hSt : 0 < St) (hkT : 0 < kT) (hy : 0 < 1 - d / Lc + F / St) :
+    emsResidual F d Lp Lc St kT = 0 ↔ d = emsDistance F Lp Lc St kT := by
+  have h2 := ems_distance_solves_all F Lp Lc St kT hF hLp hLc hSt hkT
+  have y2 := (ems_distance_selected_root F Lp Lc St kT hF hLp hLc hSt hkT).2
+  constructor
+  · intro h
+    rcases lt_trichotomy d (emsDistance F Lp Lc St kT) with h' | h' | h'
+    · have := emsResidual_strictMono_d F d _ Lp Lc St kT hLc h' y2; linarith
+    · exact h'
+    · have := emsResidual_strictMono_d F _ d Lp Lc St kT hLc h' hy; linarith
+  · intro h; rw [h]; exact h2
+
+/-- … and iff `F` is what `ewlc_marko_siggia_force` returns for `d` (every `d`). -/
+theorem ems_force_characterised (F d Lp Lc St kT : ℝ) (hLp : 0 < Lp) (hLc : 0 < Lc)
+    (hSt : 0 < St) (hkT : 0 < kT) (hy : 0 < 1 - d / Lc + F / St) :
+    emsResidual F d Lp Lc St kT = 0 ↔ F = emsForce d Lp Lc St kT := by
+  have h2 := ems_force_solves_all d Lp Lc St kT hLp hLc hSt hkT
+  have y2 := ems_force_selected_root d Lp Lc St kT hLp hLc hSt hkT
+  constructor
+  · intro h
+    rcases lt_trichotomy F (emsForce d Lp Lc St kT) with h' | h' | h'
+    · have := emsResidual_strictAnti_F F _ d Lp Lc St kT hLp hSt hkT h' hy; linarith
+    · exact h'
+    · have := emsResidual_strictAnti_F _ F d Lp Lc St kT hLp hSt hkT h' y2; linarith
+  · intro h; rw [h]; exact h2
+
+example : ∃ F d Lp Lc St kT : ℝ, 0 < F ∧ 0 < Lp ∧ 0 < Lc ∧ 0 < St ∧ 0 < kT ∧ 0 < 1 - d / Lc + F / St ∧ d < Lc :=
+  ⟨10, 15, 40, 16, 1500, 4.11, by norm_num, by norm_num, by norm_num, by norm_num, by norm_num, by norm_num,
+    by norm_num⟩
+
+/-- Every closed-form model is strictly increasing on its domain (so each is a legitimate problem for
+    `Model.invert()`, and the pairs above are inverse BIJECTIONS): the four inverses. -/
+theorem ms_force_strictMono (d1 d2 Lp Lc kT : ℝ) (hLp : 0 < Lp) (hLc : 0 < Lc) (hkT : 0 < kT)
+    (h12 : d1 < d2) (h2 : d2 < Lc) : msForce d1 Lp Lc kT < msForce d2 Lp Lc kT :=
+  msForce_strictMono d1 d2 Lp Lc kT hLp hLc hkT h12 h2
+
+theorem ms_distance_strictMono (F1 F2 Lp Lc kT : ℝ) (h1 : 0 < F1) (h12 : F1 < F2) (hLp : 0 < Lp) (hLc : 0 < Lc)
+    (hkT : 0 < kT) : msDistance F1 Lp Lc kT < msDistance F2 Lp Lc kT := by
+  have h2 : 0 < F2 := lt_trans h1 h12
+  have s1 := ms_selected_root F1 Lp Lc kT h1 hLp hLc hkT
+  have s2 := ms_selected_root F2 Lp Lc kT h2 hLp hLc hkT
+  have b1 := ms_force_of_distance F1 Lp Lc kT h1 hLp hLc hkT
+  have b2 := ms_force_of_distance F2 Lp Lc kT h2 hLp hLc hkT
+  by_contra hc
+  rcases lt_or_eq_of_le (not_lt.mp hc) with h | h
+  · have := msForce_strictMono _ _ Lp Lc kT hLp hLc hkT h s1.2; linarith
+  · rw [h] at b2; linarith
+
+theorem odijk_force_strictMono (d1 d2 Lp Lc St kT : ℝ) (h12 : d1 < d2) (hLp : 0 < Lp) (hLc : 0 < Lc)
+    (hSt : 0 < St) (hkT : 0 < kT) : odijkForce d1 Lp Lc St kT < odijkForce d2 Lp Lc St kT := by
+  have p1 := (odijk_selected_root d1 Lp Lc St kT hLp hSt hkT).1
+  have p2 := (odijk_selected_root d2 Lp Lc St kT hLp hSt hkT).1
+  have b1 := odijk_distance_of_force d1 Lp Lc St kT hLp hLc hSt hkT
+  have b2 := odijk_distance_of_force d2 Lp Lc St kT hLp hLc hSt hkT
+  by_contra hc
+  rcases lt_or_eq_of_le (not_lt.mp hc) with h | h
+  · have := odijk_distance_strictMono _ _ Lp Lc St kT p2 h hLp hLc hSt hkT; linarith
+  · rw [h] at b2; linarith
+
+theorem ems_distance_strictMono (F1 F2 Lp Lc St kT : ℝ) (h1 : 0 < F1) (h12 : F1 < F2) (hLp : 0 < Lp)
+    (hLc : 0 < Lc) (hSt : 0 < St) (hkT : 0 < kT) :
+    emsDistance F1 Lp Lc St kT < emsDistance F2 Lp Lc St kT := by
+  rw [ems_distance_is_shifted_ms F1 Lp Lc St kT hSt.ne' hkT.ne',
+    ems_distance_is_shifted_ms F2 Lp Lc St kT hSt.ne' hkT.ne']
+  have := ms_distance_strictMono F1 F2 Lp Lc kT h1 h12 hLp hLc hkT
+  have : Lc * F1 / St < Lc * F2 / St :=
+    div_lt_div_of_pos_right (mul_lt_mul_of_pos_left h12 hLc) hSt
+  linarith
+
+theorem ems_force_strictMono (d1 d2 Lp Lc St kT : ℝ) (h12 : d1 < d2) (hLp : 0 < Lp) (hLc : 0 < Lc)
+    (hSt : 0 < St) (hkT : 0 < kT) : emsForce d1 Lp Lc St kT < emsForce d2 Lp Lc St kT := by
+  have r1 := ems_force_solves_all d1 Lp Lc St kT hLp hLc hSt hkT
+  have r2 := ems_force_solves_all d2 Lp Lc St kT hLp hLc hSt hkT
+  have y2 := ems_force_selected_root d2 Lp Lc St kT hLp hLc hSt hkT
+  by_contra hc
+  have hle : emsForce d2 Lp Lc St kT ≤ emsForce d1 Lp Lc St kT := not_lt.mp hc
+  have y12 : 0 < 1 - d2 / Lc + emsForce d1 Lp Lc St kT / St := by
+    have : emsForce d2 Lp Lc St kT / St ≤ emsForce d1 Lp Lc St kT / St := div_le_div_of_nonneg_right hle hSt.le
+    linarith
+  have a := emsResidual_strictMono_d (emsForce d1 Lp Lc St kT) d1 d2 Lp Lc St kT hLc h12 y12
+  rcases lt_or_eq_of_le hle with h | h
+  · have b := emsResidual_strictAnti_F _ _ d2 Lp Lc St kT hLp hSt hkT h y2
+    linarith
+  · rw [h] at r2; linarith
+
 /-! ## eFJC and tWLC evaluate their published closed forms (the guards and masks are harmless) -/
 
 /-- tWLC: the three-way mask of the code (`g[f < Fc] = g0 + g1·Fc`, `g[f ≥ Fc] = g0 + g1·f`, zeros otherwise) is
